@@ -242,6 +242,19 @@ func (pConn *PFCPConn) handleAssociationReleaseRequest(msg message.Message) (mes
 	return arres, nil
 }
 
+// parsePFDContents decodes a PFD Contents IE. The go-pfcp decoder slices the
+// payload by the length fields it reads without checking them against the
+// payload size and panics on a truncated IE; that is reported as an error here.
+func parsePFDContents(pfdContent *ie.IE) (fields *ie.PFDContentsFields, err error) {
+	defer func() {
+		if r := recover(); r != nil {
+			fields, err = nil, ErrOperationFailedWithReason("parse PFD Contents", "malformed IE")
+		}
+	}()
+
+	return pfdContent.PFDContents()
+}
+
 func (pConn *PFCPConn) handlePFDMgmtRequest(msg message.Message) (message.Message, error) {
 	pfdmreq, ok := msg.(*message.PFDManagementRequest)
 	if !ok {
@@ -282,7 +295,7 @@ func (pConn *PFCPConn) handlePFDMgmtRequest(msg message.Message) (message.Messag
 		}
 
 		for _, pfdContent := range pfdCtx {
-			fields, err := pfdContent.PFDContents()
+			fields, err := parsePFDContents(pfdContent)
 			if err != nil {
 				pConn.RemoveAppPFD(id)
 				return errUnmarshalReply(err, appIDPFD)
